@@ -1359,9 +1359,9 @@ example (vm : CoreVM.VM) (flowId : String) (args : List (String × Val))
 
 /-- every refined CoreVM step (`Refine.RefinedStep`: outermost `abortFlow` / `finishFlow`; the `EndScope`, `BeginScope`,
     `start_new_flow_instance`-label and effect-free elements of `slideStep`; `StopFlow` / `FinishFlow(flow_instance_uid=…)` and
-    non-creating `StartFlow` processing; `StopFlow(flow_id=…)` with its loop over `flow_id_states`; `setFlowStatus` along the status
+    non-creating `StartFlow` processing; `StopFlow` / `FinishFlow(flow_id=…)` with their loop over `flow_id_states`; `setFlowStatus` along the status
     order; `updateActionStatusByEvent` for an admissible action event) IS a sequence of operations of the Lifetime machine
-    (`abort`, `finish`, `endScope`, `label`, `reactivate`, `frame`, `status`, `event`; at most one except for `StopFlow(flow_id=…)`)
+    (`abort`, `finish`, `endScope`, `label`, `reactivate`, `frame`, `status`, `event`; at most one except for `StopFlow` / `FinishFlow(flow_id=…)`)
     on the abstraction -/
 theorem corevm_refined_step_is_op (hν : Function.Injective ν) (hφ : Function.Injective φ) (vm vm' : CoreVM.VM) (hw : Refine.WF vm)
     (h : Refine.RefinedStep ν φ vm vm') :
@@ -1370,8 +1370,7 @@ theorem corevm_refined_step_is_op (hν : Function.Injective ν) (hφ : Function.
   Refine.refinedStep_is_op ν φ hν hφ vm vm' hw h
 
 /-- PARTIAL (`corevm_lifetime_invariant` would quantify over ALL steps of `CoreVM.runToCompletion`; instance creation +
-    `_start_flow`, the new-action / `Start` / conflict-resolution sites, `FinishFlow(flow_id=…)` and head movement in general are not
-    refined, and the action clauses do not transfer because `absVM` forgets the outgoing events): the hierarchy part of the lifetime
+    `_start_flow`, the new-action / `Start` / conflict-resolution sites and head movement in general are not refined, and the action clauses do not transfer because `absVM` forgets the outgoing events): the hierarchy part of the lifetime
     invariant — `FlowInv` (children form, restarted instances under their reference instance, main flow a root) and `LinkInv` (every
     listening instance is listed by its parent) — holds for the abstraction along every sequence of refined CoreVM steps. -/
 theorem corevm_hierarchy_invariant_partial (hν : Function.Injective ν) (hφ : Function.Injective φ) (vm vm' : CoreVM.VM)
